@@ -16,7 +16,7 @@ TECHNIQUE = 'deterministic simulation as the end-to-end observation point; refer
 LEVEL = 'exploration'
 BUDGET = {'quick': 200, 'thorough': 2400}
 NCASES = {'quick': 2100, 'thorough': 14000}
-RULE = ('cases: (policy, peer) pairs; non-trivial: a verdict was reached; distinct by (flag triple, field, relation between policy and peer for that field). Cell coverage is reported.')
+RULE = ('cases: (policy, peer) pairs, 15% of the server audits requested through a one-line targets file; non-trivial: a verdict was reached; distinct by (flag triple, field, relation between policy and peer for that field). Cell coverage is reported.')
 ASSUMPTIONS = ['fault-free: equality with the reference is asserted only when every probe completed']
 
 U = {'kex': ['curve25519-sha256', 'diffie-hellman-group-exchange-sha256', 'diffie-hellman-group16-sha512', 'kex-strict-s-v00@openssh.com'],
@@ -99,9 +99,13 @@ def cases(seed, tier):
         if rng.random() < 0.2:
             pol['compressions'] = prof['comp'] if rng.random() < 0.6 else ['none']
         c = {'profile': prof, 'policy': pol, 'opts': rng.choice([['-n'], ['-j'], ['-jj'], ['-n', '-b'], ['-n', '-v']]), 'pseed': rng.getrandbits(32)}
+        if gen.case_rng(seed, ID, i, 'via').random() < 0.15:
+            # the same audit requested through a one-line targets file: the rules do not depend on how the target was named
+            c['via_file'] = True
         if rng.random() < 0.15:
             # client audit with a client policy: what is judged is what the report shows (the server-to-client direction)
             c['role'] = 'client'
+            c.pop('via_file', None)
             pol['client'] = True
             pol.pop('hostkey_sizes', None)
             pol.pop('dh_modulus_sizes', None)
@@ -150,6 +154,8 @@ def verdict(case, rec):
     isjson = any(o in ('-j', '-jj') for o in case['opts'])
     if isjson:
         doc, err = report.parse_json(rec['stdout'])
+        if case.get('via_file') and isinstance(doc, list) and len(doc) == 1:
+            doc = doc[0]
         if not isinstance(doc, dict) or 'passed' not in doc:
             return None
         errs = doc.get('errors', [])
@@ -172,10 +178,12 @@ def run_policy(case, ctx, prof):
         plan['dir'] = ctx.scratch()
         plan['files'] = {'policy.txt': refmodels.policy_text(case['policy'])}
         return ctx.run(plan)
-    argv = list(case['opts']) + ['--skip-rate-test', '-t', '2', '-P', '{DIR}/policy.txt', 'srv.example:2222']
+    argv = list(case['opts']) + ['--skip-rate-test', '-t', '2', '-P', '{DIR}/policy.txt'] + (['-T', '{DIR}/targets.txt'] if case.get('via_file') else ['srv.example:2222'])
     plan = gen.server_plan(case['pseed'], argv, prof, port=2222)
     plan['dir'] = ctx.scratch()
     plan['files'] = {'policy.txt': refmodels.policy_text(case['policy'])}
+    if case.get('via_file'):
+        plan['files']['targets.txt'] = 'srv.example:2222\n'
     return ctx.run(plan)
 
 
